@@ -210,6 +210,7 @@ private:
 
       if (op->activeOpCount_.fetch_sub(1, std::memory_order_acq_rel) == 1) {
         // we're the last owner of the operation so deliver its result now
+        op->stopCallback_.reset();
         op->deliver_result();
       }
     }
